@@ -46,6 +46,7 @@ where
     type_aliases: FnvHashMap<(Atom, SyntaxContext), TsType>,
     /// declarations being expanded by type resolution, innermost last
     expanding_types: RefCell<Vec<(Atom, SyntaxContext)>>,
+    expanding_accesses: RefCell<Vec<Span>>,
 
     unresolved_mark: Mark,
     comments: Option<C>,
@@ -74,6 +75,7 @@ where
             interfaces: Default::default(),
             type_aliases: Default::default(),
             expanding_types: Default::default(),
+            expanding_accesses: Default::default(),
 
             unresolved_mark,
             comments,
